@@ -175,6 +175,11 @@ func requestMutations(fn *ssa.Function) []requestMutation {
 
 func runC02(c *Ctx) {
 	p := c.Progs["mod"]
+	c.Rule("C02.Y", "compatibility with the party that is not changed with this code: stored request entities stay loadable; the bridge keeps its frame codec (= C15.E)", 4)
+	ruleStoredEntityLoadable(c, p, "C02.Y", "app/store.storedRequest", "app/store.blob")
+	c.Borrow(runC15, "C15.E", "C02.Y", func(k string) bool {
+		return strings.HasPrefix(k, "Write:") || strings.HasPrefix(k, "Read:") || strings.HasPrefix(k, "site:utils/tcpbridge/connection.(*WebsocketNetConn)")
+	})
 	c.Rule("C02.H", "hop-by-hop tables exact; request-side deletion guarded by the predicate on the same name", 2)
 	c.Rule("C02.W", "who-may-write the forwarded request: every mutation site is in the frozen table; plain single-host reverse proxy; the replayed request has no peer address; the session handler re-adds the client's cookies as sent", 17)
 	c.Rule("C02.I", "identity of the forwarded request object, private parse reader, reply body lifetime", 6)
